@@ -1,51 +1,102 @@
 /-
-L8 — a whole run of `cnfgen` or `pbgen`: argv ↦ the text written to stdout, with the module-level generator as an explicit
-input.  The model COMPOSES what exists — it adds no new sampler or family:
+L8 — a whole run of `cnfgen` or `pbgen`: argv (and the contents of the files it names) ↦ the text written to stdout and the
+files written by `save`, with the module-level generator as an explicit input.  The model COMPOSES what exists — it adds no
+new sampler or family:
 
-  * the ORDER of the steps is the phase table regenerated from the source (`Generated/Phases.lean`): `cliRun`
+  * the ORDER of the steps is the phase table regenerated from the source (`Generated/Phases.lean`): `toolRun`
     walks the event list of the tool (`parse`, `random.seed`, `build`, transformations, header entries, output);
-  * sub-command tokens ↦ library call: `Cli/Dispatch.lean` (argparse fragment + call templates from the source);
+  * the command line is split around `-T` (`Cli/Chain.lean`); sub-command and transformation tokens ↦ library call:
+    `Cli/Dispatch.lean` (argparse fragment + call templates from the source);
   * graph arguments are materialised WHILE PARSING (as the argparse actions do): `GSpec.makeGraphFromSpec`
-    (`parse_graph_argument` + `obtain_graph`, all in-house samplers as functions of draws);
-    `networkx.gnp_random_graph` is modelled here (`nxGnp`: one `random()` per pair, in `combinations` order);
-  * `randkcnf [-p]`, `randkxor [-p]`: `Rand.cliRandKCNF`, `Rand.cliRandKXORSys`; `kcolor k G`: `Fam.coloring`;
+    (`parse_graph_argument` + `obtain_graph`, all in-house samplers as functions of draws); the networkx generators are
+    `nxGnp` (one `random()` per pair), `Nx.gnmSimple`, `Nx.gndSimple` (Rand/NxDraws.lean); a graph FILE is read from
+    `World.files` (content by path token, `GraphFmt.readText`), `save` writes through `GraphFmt.writeText`;
+  * families: `Rand.cliRandKCNF`, `Rand.cliRandKXORSys`, `Fam.coloring`, `Fam.tseitin` (charges from `random.randint`),
+    `Fam.gphp`, `Fam.domset`, `Fam.G2.cliqueFormula`; transformations: `Shuffle.run`, `Subst.compress` after
+    `GRand.leftRegular`, `Subst.xorSubst/orSubst/majSubst/flip`;
   * header + text: `IO.renderDimacsText` (cnfgen), `IO.renderOpbText` of the OPB rendering (pbgen, `formula_class=OPB`).
 
-The generator.  A state of Python's generator is represented by what it WILL answer (`Rng`): the record of the
-answers to the calls of the graph samplers (`GRand.Draw`) and to the calls of the formula samplers (`Rand.Draw`) —
-the two draw vocabularies of the existing sampler models; no modelled sub-command draws in both phases.
+The generator.  A state of Python's generator is represented by what it WILL answer (`Rng`): an ordered stream for the calls
+made while parsing and an ordered stream for the calls made afterwards (build and the whole `-T` chain share ONE stream);
+every answer is tagged with the vocabulary of the sampler model that asks for it (`RDraw`).
 `σ : Int → Rng` is `random.seed`: the state it installs is a function of the seed alone (the ONLY assumption
 on CPython's generator besides the legality of answers, which the samplers check).  Hidden input of the process:
 the initial state `rng₀`.  Nothing else in the model can depend on the process: there is no set, no dict, no
-address, no clock in it — the tie of THAT to the source is the reviewed hazard list (`Props/C07/Hazards.lean`).
+address, no clock, no working directory in it — the tie of THAT to the source is the reviewed hazard list
+(`Props/C07/Hazards.lean`).
 
 Fragment (anything else is `unsupported`, never guessed): options `--seed <int>` / `-S <int>` (canonical decimal
-integers), `-q`, `--quiet`, `-v`, `--verbose`; no `-T`; sub-commands `randkcnf`, `randkxor`, `kcolor`; graph
-specifications `gnp N p [t]`, `empty N`, `complete N` with `plantclique`, `addedges`, `splitedges` (no `save`, no
-files).  Import-free.
+integers), `-q`, `--quiet`, `-v`, `--verbose`; sub-commands `randkcnf`, `randkxor`, `kcolor`, `tseitin`, `php <bipartite>`,
+`domset`, `kclique`; simple graphs `gnp N p [t]`, `gnm N m`, `gnd N d`, `empty N`, `complete N` with `plantclique`,
+`addedges`, `splitedges`; bipartite `glrp`, `glrm`, `glrd`, `regular`, `empty` with `plantbiclique`, `addedges`; `save` and
+files in the kthlist / dimacs / matrix formats; `-T shuffle | xorcomp N [d] | majcomp N [d] | xor k | or k | maj k | flip`.
+Import-free.
 -/
 import CnfgenModel.Cli.PhaseTable
 import CnfgenModel.Cli.Dispatch
+import CnfgenModel.Cli.Chain
 import CnfgenModel.Cli.Validate
 import CnfgenModel.Cli.GraphSpecObtain
 import CnfgenModel.Rand.KXOR
+import CnfgenModel.Rand.NxDraws
+import CnfgenModel.Rand.BipSamplers
 import CnfgenModel.Fam.Coloring
+import CnfgenModel.Fam.Tseitin
+import CnfgenModel.Fam.Php
+import CnfgenModel.Fam.DomSet
+import CnfgenModel.Fam.Subgraph
+import CnfgenModel.Trans.Shuffle
+import CnfgenModel.Trans.Subst
+import CnfgenModel.Trans.Header
 import CnfgenModel.IO.Dimacs
 import CnfgenModel.IO.Opb
+import CnfgenModel.IO.GraphFmt
 namespace Cnfgen.CliRun
 open Cnfgen Cnfgen.Cli Cnfgen.GenPh
 
-/-- the module-level generator, as the program sees it: the answers it will give -/
-structure Rng where
-  graph : List GRand.Draw
-  formula : List Rand.Draw
+/-- one answer of the module-level generator, in the vocabulary of the sampler model that asks for it: cnfgen's graph
+samplers (`g`), the formula samplers and `random.randint` of the helpers (`f`), networkx's `gnm_random_graph` /
+`random_regular_graph` (`nx`), the `Shuffle` transformation (`sh`) -/
+inductive RDraw where
+  | g (d : GRand.Draw)
+  | f (d : Rand.Draw)
+  | nx (d : Nx.NxDraw)
+  | sh (d : Shuffle.Draw)
   deriving Repr, DecidableEq, Inhabited
 
-/-- inputs that are functions of the command line and of the installation, not of the process -/
+/-- an ordered stream of answers -/
+abbrev Stream := List RDraw
+
+/-- the module-level generator, as the program sees it: the answers it will give, IN ORDER, to the calls made while the
+command line is parsed (`parse`: the graph arguments, materialised by argparse actions) and to the calls made afterwards
+(`later`: ONE stream threaded through `build_formula` and every transformation of the `-T` chain, in order).  Two views
+of one state: `cli()` seeds a second time between the two phases, so the same state answers two different sequences of
+requests -/
+structure Rng where
+  parse : Stream
+  later : Stream
+  deriving Repr, DecidableEq, Inhabited
+
+def gPre : List RDraw → List GRand.Draw
+  | .g d :: r => d :: gPre r
+  | _ => []
+def fPre : List RDraw → List Rand.Draw
+  | .f d :: r => d :: fPre r
+  | _ => []
+def nxPre : List RDraw → List Nx.NxDraw
+  | .nx d :: r => d :: nxPre r
+  | _ => []
+def shPre : List RDraw → List Shuffle.Draw
+  | .sh d :: r => d :: shPre r
+  | _ => []
+
+/-- inputs that are functions of the command line and of the installation (and the files named on the command line),
+not of the process -/
 structure World where
-  gw : GSpec.World                       -- `int(tok)` / `float(tok)` of numerals, file system, recursion budget
+  gw : GSpec.World                       -- `int(tok)` / `float(tok)` of numerals, recursion budget
   floatStr : String → String             -- `str(float(tok))`
   baseHeader : List (String × String)    -- generator / copyright / url entries every formula starts with
+  files : String → Option String := fun _ => none   -- content of the file a path token names (the environment)
 
 inductive Outcome where
   | text (out : String)         -- written to stdout, exit status 0
@@ -53,6 +104,15 @@ inductive Outcome where
   | crash (e : Err)             -- an exception escapes
   | unsupported (why : String)  -- outside the modelled fragment
   | stuck                       -- the draw record is not a record of this run
+  deriving Repr, DecidableEq, Inhabited
+
+/-- what a run leaves behind: what is written to stdout (or how it fails), how many answers of the generator were
+consumed while the command line was parsed and afterwards, and the files written (`save`), in order: path token, text -/
+structure Result where
+  out : Outcome
+  usedParse : Nat
+  usedLater : Nat
+  written : List (String × String) := []
   deriving Repr, DecidableEq, Inhabited
 
 /-! ### options of the main parser -/
@@ -71,7 +131,7 @@ def decimal? (s : String) : Option Int :=
   | '-' :: rest => if isDigitStr rest then pyInt? s else none
   | cs => if isDigitStr cs then pyInt? s else none
 
-def knownSubs : List String := ["randkcnf", "randkxor", "kcolor"]
+def knownSubs : List String := ["randkcnf", "randkxor", "kcolor", "tseitin", "php", "domset", "kclique"]
 
 /-- the words before the sub-command; `fuel` = number of words -/
 def parseTop : Nat → List String → Top → Except Outcome Top
@@ -90,6 +150,37 @@ def parseTop : Nat → List String → Top → Except Outcome Top
     else if knownSubs.contains w then .ok { t with sub := w :: rest }
     else .error (.unsupported "option or sub-command")
 
+/-! ### running the sampler models on the stream -/
+
+def ofErr : Err → Outcome
+  | .valueError => .cliError            -- `except ValueError: parser.error(...)` / `subparser.error(e)`
+  | e => .crash e
+
+/-- a graph sampler (vocabulary `g`) on the stream: it sees the `g` answers at the front, and what it consumed is
+dropped from the stream -/
+def runG {α} (m : GRand.RM α) (ds : Stream) : Except Outcome (α × Stream) :=
+  let p := gPre ds
+  match m p with
+  | .ok a rest => .ok (a, ds.drop (p.length - rest.length))
+  | .exc e => .error (ofErr e)
+  | .foreign => .error (.unsupported "third-party exception")
+  | .stuck => .error .stuck
+
+/-- a formula sampler (vocabulary `f`) on the stream -/
+def runF {α} (m : Rand.RandM α) (ds : Stream) : Except Outcome (α × Stream) :=
+  let p := fPre ds
+  match m p with
+  | .ok (a, rest) => .ok (a, ds.drop (p.length - rest.length))
+  | .error (.py e) => .error (ofErr e)
+  | .error _ => .error .stuck
+
+/-- a networkx generator (vocabulary `nx`) on the stream -/
+def runNx {α} (m : List Nx.NxDraw → Nx.NxOut α) (ds : Stream) : Except Outcome (α × Stream) :=
+  let p := nxPre ds
+  match m p with
+  | .ok a rest => .ok (a, ds.drop (p.length - rest.length))
+  | .stuck => .error .stuck
+
 /-! ### graph arguments -/
 
 /-- `networkx.gnp_random_graph(n, p)` followed by `Graph.normalize`: `p ≥ 1` complete, `p ≤ 0` empty, else one
@@ -99,45 +190,102 @@ def nxGnp (n : Nat) (pn : Int) (pd : Nat) : GRand.RM SimpleG :=
   else if pn ≤ 0 then pure (SimpleG.init n)
   else GRand.coinLoopS (fun x => GRand.unitLt x pn pd) (GBuild.completeCalls n) (SimpleG.init n)
 
-/-- the third-party generator a specification calls, run on the draws — exactly when `obtain_gnp` reaches it
-(two or three numerals, `N > 0`, `0 ≤ p ≤ 1`, `t = 1`); `none` otherwise -/
-def specExt (w : World) (p : GSpec.Parsed) : GRand.RM (Option GCli.CG) :=
-  match p.construction, p.args with
-  | some "gnp", some (some as) =>
-    let go (a pt : String) (t : Int) : GRand.RM (Option GCli.CG) :=
+def simpleOfNx : Except Err SimpleG → Except Outcome (Option GCli.CG)
+  | .ok S => .ok (some (.simple S))
+  | .error _ => .error (.unsupported "from_networkx refuses the graph")
+
+/-- `Graph.from_networkx(networkx.gnm_random_graph(n, m))` exactly when `obtain_gnm` reaches it -/
+def extGnm (n m : Int) (ds : Stream) : Except Outcome (Option GCli.CG × Stream) :=
+  if GCli.gnmGuard n m then
+    match runNx (Nx.gnmSimple n.toNat m.toNat) ds with
+    | .error o => .error o
+    | .ok (r, ds') => (simpleOfNx r).map (fun e => (e, ds'))
+  else .ok (none, ds)
+
+/-- `Graph.normalize(networkx.random_regular_graph(d, n))` exactly when `obtain_gnd` reaches it and networkx accepts -/
+def extGnd (n d : Int) (ds : Stream) : Except Outcome (Option GCli.CG × Stream) :=
+  if GCli.gndGuard n d && !GCli.gndOdd n d && GCli.nxRegularPre d n then
+    match runNx (Nx.gndSimple n.toNat d.toNat) ds with
+    | .error o => .error o
+    | .ok (some r, ds') => (simpleOfNx r).map (fun e => (e, ds'))
+    | .ok (none, _) => .error (.unsupported "third-party exception")
+  else .ok (none, ds)
+
+/-- the third-party generator a specification calls, run on the stream — exactly when `obtain_*` reaches it; `none`
+otherwise -/
+def specExt (w : World) (p : GSpec.Parsed) (ds : Stream) : Except Outcome (Option GCli.CG × Stream) :=
+  match p.graphtype, p.construction, p.args with
+  | "simple", some "gnp", some (some as) =>
+    let go (a pt : String) (t : Int) : Except Outcome (Option GCli.CG × Stream) :=
       match (w.gw.interp a).int?, (w.gw.interp pt).flt? with
       | some n, some (pn, pd) =>
-        if GCli.gnpGuard n pn pd t && t == 1 then do
-          let G ← nxGnp n.toNat pn pd
-          pure (some (.simple G))
-        else pure none
-      | _, _ => pure none
+        if GCli.gnpGuard n pn pd t && t == 1 then
+          (runG (nxGnp n.toNat pn pd) ds).map (fun r => (some (.simple r.1), r.2))
+        else .ok (none, ds)
+      | _, _ => .ok (none, ds)
     match as with
     | [a, pt] => go a pt 1
     | [a, pt, tt] =>
       match (w.gw.interp tt).int? with
       | some t => go a pt t
-      | none => pure none
-    | _ => pure none
-  | _, _ => pure none
+      | none => .ok (none, ds)
+    | _ => .ok (none, ds)
+  | "simple", some "gnm", some (some [a, b]) =>
+    match (w.gw.interp a).int?, (w.gw.interp b).int? with
+    | some n, some m => extGnm n m ds
+    | _, _ => .ok (none, ds)
+  | "simple", some "gnd", some (some [a, b]) =>
+    match (w.gw.interp a).int?, (w.gw.interp b).int? with
+    | some n, some d => extGnd n d ds
+    | _, _ => .ok (none, ds)
+  | _, _, _ => .ok (none, ds)
 
 def intStr? (w : World) (tok : String) : Option String := ((w.gw.interp tok).int?).map toString
 
-/-- `G.name` after `obtain_graph`, for the constructions of the fragment -/
+/-- `G.name` after `obtain_*`, for the constructions of the fragment -/
 def baseName (w : World) (p : GSpec.Parsed) : Option String :=
-  match p.construction, p.args with
-  | some "gnp", some (some [a, pt]) =>
+  match p.graphtype, p.construction, p.args with
+  | "simple", some "gnp", some (some [a, pt]) =>
     (intStr? w a).map (fun n => "Random " ++ w.floatStr pt ++ "-biased graph of " ++ n ++ " vertices")
-  | some "gnp", some (some [a, pt, tt]) =>
+  | "simple", some "gnp", some (some [a, pt, tt]) =>
     match intStr? w a, (w.gw.interp tt).int? with
     | some n, some t =>
       if t == 1 then some ("Random " ++ w.floatStr pt ++ "-biased graph of " ++ n ++ " vertices")
       else some ("Random " ++ w.floatStr pt ++ "-biased " ++ toString t ++ "-partite graph with " ++ n ++
                  " vertices per part")
     | _, _ => none
-  | some "empty", some (some [a]) => (intStr? w a).map (fun n => "the empty graph of order " ++ n)
-  | some "complete", some (some [a]) => (intStr? w a).map (fun n => "the complete graph of order " ++ n)
-  | _, _ => none
+  | "simple", some "gnm", some (some [a, b]) =>
+    match intStr? w a, intStr? w b with
+    | some n, some m => some ("Random graph of " ++ n ++ " vertices with " ++ m ++ " edges")
+    | _, _ => none
+  | "simple", some "gnd", some (some [a, b]) =>
+    match intStr? w a, intStr? w b with
+    | some n, some d => some ("Random " ++ d ++ "-regular graph of " ++ n ++ " vertices")
+    | _, _ => none
+  | "simple", some "empty", some (some [a]) => (intStr? w a).map (fun n => "the empty graph of order " ++ n)
+  | "simple", some "complete", some (some [a]) => (intStr? w a).map (fun n => "the complete graph of order " ++ n)
+  | "bipartite", some "glrp", some (some [a, b, pt]) =>
+    match intStr? w a, intStr? w b with
+    | some l, some r => some ("Random " ++ w.floatStr pt ++ "-biased bipartite with (" ++ l ++ "," ++ r ++ ") vertices")
+    | _, _ => none
+  | "bipartite", some "glrm", some (some [a, b, c]) =>
+    match intStr? w a, intStr? w b, intStr? w c with
+    | some l, some r, some m => some ("Random bipartite with (" ++ l ++ "," ++ r ++ ") vertices and " ++ m ++ " edges")
+    | _, _, _ => none
+  | "bipartite", some "glrd", some (some [a, b, c]) =>
+    match intStr? w a, intStr? w b, intStr? w c with
+    | some l, some r, some d => some ("Random " ++ d ++ "-left regular bipartite with (" ++ l ++ "," ++ r ++ ") vertices")
+    | _, _, _ => none
+  | "bipartite", some "regular", some (some [a, b, c]) =>
+    match intStr? w a, intStr? w b, intStr? w c with
+    | some l, some r, some d =>
+      some ("Random regular bipartite with (" ++ l ++ "," ++ r ++ ") vertices and left degree " ++ d)
+    | _, _, _ => none
+  | "bipartite", some "empty", some (some [a, b]) =>
+    match intStr? w a, intStr? w b with
+    | some l, some r => some ("Empty bipartite graph with (" ++ l ++ "," ++ r ++ ") vertices")
+    | _, _ => none
+  | _, _, _ => none
 
 def optSuffix (w : World) (p : GSpec.Parsed) (key pre post : String) : Option String :=
   match List.lookup key p.opts with
@@ -145,35 +293,196 @@ def optSuffix (w : World) (p : GSpec.Parsed) (key pre post : String) : Option St
   | some [a] => (intStr? w a).map (fun k => pre ++ k ++ post)
   | some _ => none
 
+def optSuffix2 (w : World) (p : GSpec.Parsed) (key : String) : Option String :=
+  match List.lookup key p.opts with
+  | none => some ""
+  | some [a, b] =>
+    match intStr? w a, intStr? w b with
+    | some x, some y => some (" + planted (" ++ x ++ "," ++ y ++ ")-biclique")
+    | _, _ => none
+  | some _ => none
+
+def fmtOf : String → Option GraphFmt.Fmt
+  | "kthlist" => some .kthlist
+  | "dimacs" => some .dimacs
+  | "matrix" => some .matrix
+  | _ => none                    -- gml / dot are written and parsed by third-party code
+
+def gfType : String → Option GraphFmt.GType
+  | "simple" => some .simple
+  | "bipartite" => some .bipartite
+  | _ => none
+
+def anyOf : GCli.CG → Option GraphFmt.AnyG
+  | .simple G => some (.simple G)
+  | .bip G => some (.bip G)
+  | _ => none
+
+def cgOf : GraphFmt.AnyG → GCli.CG
+  | .simple G => .simple G
+  | .bip G => .bip G
+  | .di G => .dag G
+
+/-- the source of the graph: a construction (with its third-party part run on the stream) or a FILE, whose content is part
+of the environment (`w.files`, by the path token as written on the command line) -/
+def sourceWorld (w : World) (ty : String) (p : GSpec.Parsed) (ds : Stream) :
+    Except Outcome (GSpec.World × Option String × Stream) :=
+  match p.construction, p.filename, p.fileformat with
+  | some _, _, _ =>
+    match specExt w p ds with
+    | .error o => .error o
+    | .ok (e, ds1) => .ok ({ w.gw with ext := e }, baseName w p, ds1)
+  | none, some fn, some ff =>
+    match w.files fn, gfType ty with
+    | some content, some gty =>
+      let f := if ff == "autodetect" then GSpec.extension fn else ff
+      if f == "gml" || f == "dot" then .error (.unsupported "third-party graph format")
+      else
+        let rd : GRand.RM GCli.CG := match fmtOf f with
+          | some fmt => fun ds' => match GraphFmt.readText true gty fmt content.toList with
+            | .ok G => .ok (cgOf G) ds'
+            | .error e => .exc e
+          | none => fun _ => .stuck
+        .ok ({ w.gw with openFile := .ok (), readGraph := rd },
+             some (ty ++ " graph from file '" ++ fn ++ "' (format: " ++ f ++ ")"), ds)
+    | _, _ => .error (.unsupported "graph file outside the environment")
+  | _, _, _ => .error (.unsupported "graph source")
+
 /-- the name with the suffixes of the modifiers, in the order `obtain_graph` applies them -/
-def graphName (w : World) (p : GSpec.Parsed) : Option String := do
-  let b ← baseName w p
+def withSuffixes (w : World) (p : GSpec.Parsed) (b : String) : Option String := do
   let s1 ← optSuffix w p "plantclique" " + planted " "-clique"
+  let s1' ← optSuffix2 w p "plantbiclique"
   let s2 ← optSuffix w p "addedges" " + " " random edges"
   let s3 ← optSuffix w p "splitedges" " + " " splitted edges"
-  pure (b ++ s1 ++ s2 ++ s3)
+  pure (b ++ s1 ++ s1' ++ s2 ++ s3)
 
-/-- `make_graph_from_spec('simple', toks)` inside `ObtainSimpleGraph.__call__`, on the graph draws -/
-def makeSimple (w : World) (toks : List String) (ds : List GRand.Draw) :
-    Except Outcome ((SimpleG × String) × List GRand.Draw) :=
-  match GSpec.parseGraphArgument "simple" toks w.gw.dot with
-  | .error .valueError => .error .cliError            -- `except ValueError: parser.error(...)`
-  | .error e => .error (.crash e)
+/-- `make_graph_from_spec(ty, toks)` inside an `Obtain…Graph.__call__`, on the stream: the graph, its name, what is left
+of the stream, and the file `save` writes (path token, text) -/
+def makeGraph (w : World) (ty : String) (toks : List String) (ds : Stream) :
+    Except Outcome ((GCli.CG × String) × Stream × List (String × String)) :=
+  match GSpec.parseGraphArgument ty toks w.gw.dot with
+  | .error e => .error (ofErr e)                     -- `except ValueError: parser.error(...)`
   | .ok p =>
-    if p.save.isSome then .error (.unsupported "save")
-    else if p.construction.isNone then .error (.unsupported "graph file")
-    else
-      match (do let e ← specExt w p
-                GSpec.makeGraphFromSpec { w.gw with ext := e } "simple" toks : GRand.RM _) ds with
-      | .ok (.simple G, _) rest =>
-        match graphName w p with
-        | some nm => .ok ((G, nm), rest)
+    match sourceWorld w ty p ds with
+    | .error o => .error o
+    | .ok (gw, base, ds1) =>
+      match runG (GSpec.makeGraphFromSpec gw ty toks) ds1 with
+      | .error o => .error o
+      | .ok ((G, saved), ds2) =>
+        match base.bind (withSuffixes w p) with
         | none => .error (.unsupported "graph name")
-      | .ok _ _ => .error (.unsupported "graph class")
-      | .exc .valueError => .error .cliError
-      | .exc e => .error (.crash e)
-      | .foreign => .error (.unsupported "third-party exception")
-      | .stuck => .error .stuck
+        | some nm =>
+          match saved, p.save with
+          | none, _ => .ok ((G, nm), ds2, [])
+          | some S, some [f, fn] =>
+            match (GSpec.resolveFormat w.gw.dot ty f fn).bind fmtOf, gfType ty, anyOf S with
+            | some fmt, some gty, some A =>
+              match GraphFmt.writeText nm.toList gty fmt A with
+              | .ok txt => .ok ((G, nm), ds2, [(fn, String.ofList txt)])
+              | .error e => .error (ofErr e)
+            | _, _, _ => .error (.unsupported "save in a third-party format")
+          | some _, _ => .error (.unsupported "save")
+
+/-! ### the `-T` chain -/
+
+/-- a transformation of the chain, as parsed -/
+inductive TCall where
+  | shuffle (pa va ca : Shuffle.Arg)
+  | compress (fn : Int) (N d : Int)            -- `xorcomp N [d]` (0) / `majcomp N [d]` (1)
+  | subst (kind : Nat) (k : Int)               -- 0 `xor k`, 1 `or k`, 2 `maj k`
+  | flip
+  deriving Repr, DecidableEq, Inhabited
+
+def ofCliErr : CliErr → Outcome
+  | .cliError => .cliError
+  | .crash _ => .unsupported "helper crash"
+  | .unsupported why => .unsupported why
+
+def shArgOf : Option Val → Option Shuffle.Arg
+  | some (.str "shuffle") => some .shuffle
+  | some (.str "fixed") => some .fixed
+  | _ => none
+
+/-- `tparser.parse_args(chunk)` for the transformations of the fragment -/
+def parseT (chunk : List String) : Except Outcome TCall :=
+  match chunk with
+  | [] => .error .cliError                           -- "You used option '-T' but did not pick a transformation"
+  | name :: words =>
+    if !(["shuffle", "xorcomp", "majcomp", "xor", "or", "maj", "flip"].contains name) then
+      .error (.unsupported "transformation")
+    else
+    match dispatchNamed "transformation" name words with
+    | .error e => .error (ofCliErr e)
+    | .ok c =>
+      if name == "shuffle" then
+        match shArgOf (c.kw.lookup "polarity_flips"), shArgOf (c.kw.lookup "variables_permutation"),
+              shArgOf (c.kw.lookup "clauses_permutation") with
+        | some a, some b, some d => .ok (.shuffle a b d)
+        | _, _, _ => .error (.unsupported "shuffle arguments")
+      else if name == "xorcomp" || name == "majcomp" then
+        let fn : Int := if name == "xorcomp" then 0 else 1
+        match words.map decimal? with
+        | [some n] => .ok (.compress fn n 3)
+        | [some n, some d] => .ok (.compress fn n d)
+        | _ => .error (.unsupported "compression by a graph argument")
+      else if name == "flip" then .ok .flip
+      else
+        match c.pos with
+        | [_, .int k] => .ok (.subst (if name == "xor" then 0 else if name == "or" then 1 else 2) k)
+        | _ => .error (.unsupported "call shape")
+
+def parseChain : List (List String) → Except Outcome (List TCall)
+  | [] => .ok []
+  | c :: cs =>
+    match parseT c with
+    | .error o => .error o
+    | .ok t =>
+      match parseChain cs with
+      | .error o => .error o
+      | .ok ts => .ok (t :: ts)
+
+abbrev Hdr := List (String × String)
+
+/-- `add_description(F, text)` -/
+def addDescription (h : Hdr) (text : String) : Hdr := h ++ [(Shuffle.tkey (Shuffle.firstFree h), text)]
+
+def ofCNF (G : CNF) : Formula := ⟨G.nvars, G.clauses.map .clause⟩
+
+/-- `argdict.transformation.transform_cnf(cnf, argdict)` on the stream -/
+def applyT (F : CNF) (h : Hdr) (ds : Stream) : TCall → Except Outcome ((CNF × Hdr) × Stream)
+  | .shuffle pa va ca =>
+    let p := shPre ds
+    match Shuffle.run F pa va ca p with
+    | none => .error .stuck
+    | some (.error e, _) => .error (ofErr e)
+    | some (.ok G, rest) => .ok ((G, Shuffle.shuffleHeader h), ds.drop (p.length - rest.length))
+  | .compress fn N d =>
+    -- `make_graph_from_spec('bipartite', ['glrd', V, N, d])` (obtain_glrd's checks), then `VariableCompression`
+    let V : Int := F.nvars
+    if !(V > 0 && N > 0 && 0 ≤ d && d ≤ N) then .error .cliError
+    else
+      match runG (GRand.leftRegular V N d) ds with
+      | .error o => .error o
+      | .ok (B, ds') =>
+        match Subst.compress F B fn with
+        | .error e => .error (ofErr e)
+        | .ok G => .ok ((G, addDescription h (Header.descr (.compress fn B.l B.r))), ds')
+  | .subst kind k =>
+    match (if kind == 0 then Subst.xorSubst F k else if kind == 1 then Subst.orSubst F k else Subst.majSubst F k) with
+    | .error e => .error (ofErr e)
+    | .ok G =>
+      .ok ((G, addDescription h (Header.descr (if kind == 0 then .xor k else if kind == 1 then .or k else .maj k))), ds)
+  | .flip =>
+    match Subst.flip F with
+    | .error e => .error (ofErr e)
+    | .ok G => .ok ((G, addDescription h (Header.descr .flip)), ds)
+
+def applyChainT (F : CNF) (h : Hdr) (ds : Stream) : List TCall → Except Outcome ((CNF × Hdr) × Stream)
+  | [] => .ok ((F, h), ds)
+  | t :: ts =>
+    match applyT F h ds t with
+    | .error o => .error o
+    | .ok ((G, h'), ds') => applyChainT G h' ds' ts
 
 /-! ### the run -/
 
@@ -181,98 +490,190 @@ structure RState where
   rng : Rng
   top : Top := {}
   call : Option Call := none
-  graph : Option (SimpleG × String) := none
-  formula : Option (Formula × List (String × String)) := none  -- constraints (as added) and header, in order
-  usedGraph : Nat := 0          -- answers consumed by the graph samplers
-  usedFormula : Nat := 0        -- answers consumed by the formula samplers
+  chain : List TCall := []
+  graph : Option (GCli.CG × String) := none
+  formula : Option (Formula × Hdr) := none  -- constraints (as added) and header, in order
+  usedGraph : Nat := 0          -- answers consumed while the command line was parsed
+  usedFormula : Nat := 0        -- answers consumed afterwards
+  written : List (String × String) := []
   deriving Inhabited
 
-def ofCliErr : CliErr → Outcome
-  | .cliError => .cliError
-  | .crash _ => .unsupported "helper crash"
-  | .unsupported why => .unsupported why
-
 /-- the first graph value among the positional arguments of the call -/
-def graphToks (c : Call) : Option (List String) :=
-  c.pos.findSome? (fun v => match v with | .graph "simple" toks => some toks | _ => none)
+def graphToks (c : Call) : Option (String × List String) :=
+  c.pos.findSome? (fun v => match v with | .graph ty toks => some (ty, toks) | _ => none)
 
 def intArgs (c : Call) : List Int := c.pos.filterMap (fun v => match v with | .int i => some i | _ => none)
 
-def setHeader (h : List (String × String)) (k v : String) : List (String × String) :=
+def boolKw (c : Call) (k : String) : Bool := match c.kw.lookup k with | some (.bool b) => b | _ => false
+
+def setHeader (h : Hdr) (k v : String) : Hdr :=
   if h.any (fun e => e.1 == k) then h.map (fun e => if e.1 == k then (k, v) else e) else h ++ [(k, v)]
 
-/-- `parse_command_line`: options of the main parser (the `--seed` action seeds at once when the table says
-so), then the sub-command: its words are converted, its graph argument is materialised -/
+/-- `tseitin N [d]`: the graph is built by `build_formula`, not by an argparse action -/
+def tseitinShortcut (sub : String) (words : List String) : Bool :=
+  sub == "tseitin" && !words.isEmpty && words.all (fun t => (decimal? t).isSome)
+
+/-- what `parse_command_line` computes from the command line and the generator: the options, the call, the chain, the
+graph argument (materialised WHILE PARSING, as the argparse actions do), the generator afterwards, the answers consumed -/
+structure Parsed where
+  call : Call
+  chain : List TCall
+  graph : Option (GCli.CG × String)
+  rng : Stream
+  used : Nat
+  written : List (String × String) := []
+
+/-- the sub-command: its words are converted, its graph argument is materialised; then the chunks after each `-T` -/
+def parseRest (w : World) (top : Top) (tcmds : List (List String)) (rng1 : Stream) : Except Outcome Parsed :=
+  match top.sub with
+  | [] => .error .cliError
+  | sub :: words =>
+    match dispatchNamed "formula" sub words with
+    | .error e => .error (ofCliErr e)
+    | .ok call =>
+      let g : Except Outcome (Option (GCli.CG × String) × Stream × List (String × String)) :=
+        match (if tseitinShortcut sub words then none else graphToks call) with
+        | none => .ok (none, rng1, [])
+        | some (ty, toks) => (makeGraph w ty toks rng1).map (fun r => (some r.1, r.2))
+      match g with
+      | .error o => .error o
+      | .ok (gr, rng2, wr) =>
+        match parseChain tcmds with
+        | .error o => .error o
+        | .ok chain => .ok ⟨call, chain, gr, rng2, rng1.length - rng2.length, wr⟩
+
+/-- `parse_command_line`: the command line is split around `-T`; options of the main parser (the `--seed` action seeds
+at once when the table says so), then the sub-command, then the transformations -/
 def stepParse (σ : Int → Rng) (w : World) (t : ToolPhases) (argv : List String) (st : RState) :
     Except Outcome RState :=
-  if argv.contains "-T" then .error (.unsupported "-T") else
-  match parseTop (argv.length + 1) argv.tail {} with
+  -- pbgen's `parse_command_line` first: "'-T' in command line unsupported by 'pbgen'"
+  if t.tool != "cnfgen" && argv.contains "-T" then .error .cliError else
+  match parseTop (argv.length + 1) (parseCommandLine argv).1 {} with
   | .error o => .error o
   | .ok top =>
     let rng1 : Rng := match t.seedOpt, top.seed with
       | some o, some s => if o.seeds then σ s else st.rng
       | _, _ => st.rng
-    match top.sub with
-    | [] => .error .cliError
-    | sub :: words =>
-      match dispatchNamed "formula" sub words with
-      | .error e => .error (ofCliErr e)
-      | .ok call =>
-        match graphToks call with
-        | none => .ok { st with rng := rng1, top := top, call := some call }
-        | some toks =>
-          match makeSimple w toks rng1.graph with
-          | .error o => .error o
-          | .ok (g, rest) =>
-            .ok { st with rng := { rng1 with graph := rest }, top := top, call := some call, graph := some g,
-                          usedGraph := st.usedGraph + (rng1.graph.length - rest.length) }
+    match parseRest w top (parseCommandLine argv).2 rng1.parse with
+    | .error o => .error o
+    | .ok p => .ok { st with rng := { rng1 with parse := p.rng }, top := top, call := some p.call, chain := p.chain, graph := p.graph,
+                             usedGraph := st.usedGraph + p.used, written := st.written ++ p.written }
 
-def liftRand {α} (r : Except Rand.RErr (α × List Rand.Draw)) : Except Outcome (α × List Rand.Draw) :=
+/-- `[random.randint(0, 1) for _ in range(n)]` -/
+def randBits : Nat → Rand.RandM (List Int)
+  | 0 => pure []
+  | n + 1 => do
+    let b ← Rand.randint 0 1
+    let bs ← randBits n
+    pure (b :: bs)
+
+def sumInts (l : List Int) : Int := l.foldl (· + ·) 0
+
+/-- the charge vector `TseitinCmdHelper.build_formula` computes for the word `<charge>` on a graph of order `n ≥ 1` -/
+def tseitinCharge (kind : String) (n : Nat) : Rand.RandM (Option (List Int)) :=
+  if kind == "first" then pure (some (1 :: List.replicate (n - 1) 0))
+  else if kind == "zero" then pure (some (List.replicate n 0))
+  else if kind == "one" then pure (some (List.replicate n 1))
+  else if kind == "random" then do
+    let c ← randBits (n - 1)
+    let b ← Rand.randint 0 1
+    pure (some (c ++ [b]))
+  else if kind == "randomodd" then do
+    let c ← randBits (n - 1)
+    pure (some (c ++ [1 - sumInts c % 2]))
+  else if kind == "randomeven" then do
+    let c ← randBits (n - 1)
+    pure (some (c ++ [sumInts c % 2]))
+  else pure none
+
+def tseitinDescr (nm : String) (ch : Option (List Int)) : String :=
+  "Tseitin formula on " ++ nm ++ ", with " ++
+    (match ch with
+     | none => "odd"
+     | some c => if sumInts c % 2 == 0 then "even" else "odd") ++ " charge"
+
+def ofFam (r : Except Err Formula) : Except Outcome Formula :=
   match r with
-  | .ok x => .ok x
-  | .error (.py .valueError) => .error .cliError       -- `except (CLIError, ValueError): subparser.error(e)`
-  | .error (.py e) => .error (.crash e)
-  | .error _ => .error .stuck
+  | .ok F => .ok F
+  | .error e => .error (ofErr e)
 
-/-- `args.generator.build_formula(args, formula_class=CNF)` -/
-def stepBuild (w : World) (st : RState) : Except Outcome RState :=
-  match st.call with
-  | none => .error (.unsupported "build before parse")
-  | some c =>
-    let plant := c.kw.any (fun p => p.1 == "planted_assignments")
-    if c.fn == "RandomKCNF" then
-      match intArgs c with
-      | [k, n, m] =>
-        match liftRand (Rand.cliRandKCNF plant k.toNat n.toNat m.toNat st.rng.formula) with
-        | .error o => .error o
-        | .ok (F, rest) =>
-          let d := "Random " ++ toString k ++ "-CNF over " ++ toString n ++ " variables and " ++ toString m ++ " clauses"
-          .ok { st with rng := { st.rng with formula := rest },
-                        usedFormula := st.usedFormula + (st.rng.formula.length - rest.length),
-                        formula := some (F, ("description", d) :: w.baseHeader) }
-      | _ => .error (.unsupported "call shape")
-    else if c.fn == "RandomKXOR" then
-      match intArgs c with
-      | [k, n, m] =>
-        match liftRand (Rand.cliRandKXORSys plant k.toNat n.toNat m.toNat st.rng.formula) with
-        | .error o => .error o
-        | .ok (sys, rest) =>
-          let d := "Random " ++ toString k ++ "-xor over " ++ toString n ++ " variables and " ++ toString m ++ " clauses"
-          .ok { st with rng := { st.rng with formula := rest },
-                        usedFormula := st.usedFormula + (st.rng.formula.length - rest.length),
-                        formula := some (Rand.kxorFormula n.toNat sys, ("description", d) :: w.baseHeader) }
-      | _ => .error (.unsupported "call shape")
-    else if c.fn == "GraphColoringFormula" then
-      match st.graph, intArgs c with
-      | some (G, nm), [k] =>
-        match Fam.coloring G k true with
-        | .error .valueError => .error .cliError
-        | .error e => .error (.crash e)
-        | .ok F =>
-          let d := "Graph " ++ toString k ++ "-Colorability of " ++ nm
-          .ok { st with formula := some (F, ("description", d) :: w.baseHeader) }
-      | _, _ => .error (.unsupported "call shape")
-    else .error (.unsupported "generator")
+/-- what `build_formula` computes: the formula, its description, the generator afterwards -/
+def buildCore (w : World) (top : Top) (c : Call) (graph : Option (GCli.CG × String)) (rng : Stream) :
+    Except Outcome ((Formula × String) × Stream) :=
+  let plant := c.kw.any (fun p => p.1 == "planted_assignments")
+  if c.fn == "RandomKCNF" then
+    match intArgs c with
+    | [k, n, m] =>
+      (runF (Rand.cliRandKCNF plant k.toNat n.toNat m.toNat) rng).map (fun r =>
+        ((r.1, "Random " ++ toString k ++ "-CNF over " ++ toString n ++ " variables and " ++ toString m ++ " clauses"), r.2))
+    | _ => .error (.unsupported "call shape")
+  else if c.fn == "RandomKXOR" then
+    match intArgs c with
+    | [k, n, m] =>
+      (runF (Rand.cliRandKXORSys plant k.toNat n.toNat m.toNat) rng).map (fun r =>
+        ((Rand.kxorFormula n.toNat r.1,
+          "Random " ++ toString k ++ "-xor over " ++ toString n ++ " variables and " ++ toString m ++ " clauses"), r.2))
+    | _ => .error (.unsupported "call shape")
+  else if c.fn == "GraphColoringFormula" then
+    match graph, intArgs c with
+    | some (.simple G, nm), [k] =>
+      (ofFam (Fam.coloring G k true)).map (fun F => ((F, "Graph " ++ toString k ++ "-Colorability of " ++ nm), rng))
+    | _, _ => .error (.unsupported "call shape")
+  else if c.fn == "DominatingSet" then
+    match graph, intArgs c with
+    | some (.simple G, nm), [d] =>
+      (ofFam (Fam.domset G d (boolKw c "alternative"))).map (fun F =>
+        ((F, toString d ++ "-dominating set on " ++ nm), rng))
+    | _, _ => .error (.unsupported "call shape")
+  else if c.fn == "CliqueFormula" then
+    match graph, c.pos with
+    | some (.simple G, nm), [_, .int k, .bool sb] =>
+      (ofFam (Fam.G2.cliqueFormula G k sb)).map (fun F =>
+        ((F, nm ++ " does not contain any " ++ toString k ++ "-clique."), rng))
+    | _, _ => .error (.unsupported "call shape")
+  else if c.fn == "GraphPigeonholePrinciple" then
+    match graph with
+    | some (.bip B, nm) =>
+      let fu := boolKw c "functional"
+      let on := boolKw c "onto"
+      let fname := if fu && on then "Graph matching" else if fu then "Graph functional pigeonhole principle"
+                   else if on then "Graph onto pigeonhole principle" else "Graph pigeonhole principle"
+      .ok ((Fam.gphp B fu on, fname ++ " formula on " ++ nm), rng)
+    | _ => .error (.unsupported "call shape")
+  else if c.fn == "TseitinFormula" then
+    match top.sub with
+    | _ :: words =>
+      if tseitinShortcut "tseitin" words then
+        -- `tseitin N [d]`: `make_graph_from_spec('simple', ["gnd", N, d])` and a random odd charge
+        match words.map decimal? with
+        | [some n] | [some n, some _] =>
+          let d : Int := match words.map decimal? with | [_, some d] => d | _ => 4
+          if n ≤ d || n * d % 2 == 1 then .error .cliError
+          else
+            match extGnd n d rng with
+            | .error o => .error o
+            | .ok (some (.simple G), rng1) =>
+              match runF (randBits (G.n - 1)) rng1 with
+              | .error o => .error o
+              | .ok (c0, rng2) =>
+                let ch := c0 ++ [1 - sumInts c0 % 2]
+                let nm := "Random " ++ toString d ++ "-regular graph of " ++ toString n ++ " vertices"
+                let ch' := if G.n < 1 then none else some ch
+                .ok ((Fam.tseitin G (ch'.map (·.map (· != 0))), tseitinDescr nm ch'), rng2)
+            | .ok _ => .error (.unsupported "gnd")
+        | _ => .error (.unsupported "call shape")
+      else
+        match graph, words with
+        | some (.simple G, nm), kind :: _ =>
+          if G.n < 1 then .ok ((Fam.tseitin G none, tseitinDescr nm none), rng)
+          else
+            match runF (tseitinCharge kind G.n) rng with
+            | .error o => .error o
+            | .ok (none, _) => .error (.unsupported "charge")
+            | .ok (some ch, rng1) => .ok ((Fam.tseitin G (some (ch.map (· != 0))), tseitinDescr nm (some ch)), rng1)
+        | _, _ => .error (.unsupported "call shape")
+    | [] => .error (.unsupported "call shape")
+  else .error (.unsupported "generator")
 
 /-- `to_file(args.output, fileformat, export_header=args.verbose)`: DIMACS for cnfgen, OPB for pbgen (their
 default formats; `formula_class` is CNF resp. OPB) -/
@@ -295,8 +696,25 @@ def stepEv (σ : Int → Rng) (w : World) (t : ToolPhases) (argv : List String) 
       | .argsSeed, some s => .ok { st with rng := σ s }
       | _, _ => .error (.unsupported "seeding from something else than the seed")
     else .ok st
-  | .build _ => stepBuild w st
-  | .transforms _ => .ok st                       -- no `-T` in the fragment: the loop body never runs
+  | .build _ =>
+    match st.call with
+    | none => .error (.unsupported "build before parse")
+    | some c =>
+      match buildCore w st.top c st.graph st.rng.later with
+      | .error o => .error o
+      | .ok ((F, d), rng') =>
+        .ok { st with rng := { st.rng with later := rng' }, usedFormula := st.usedFormula + (st.rng.later.length - rng'.length),
+                      formula := some (F, ("description", d) :: w.baseHeader) }
+  | .transforms _ =>
+    match st.chain, st.formula with
+    | [], _ => .ok st                                -- no `-T`: the loop body never runs
+    | _ :: _, none => .error (.unsupported "transformations before build")
+    | ts, some (F, h) =>
+      match applyChainT F.toCNF h st.rng.later ts with
+      | .error o => .error o
+      | .ok ((G, h'), rng') =>
+        .ok { st with rng := { st.rng with later := rng' }, usedFormula := st.usedFormula + (st.rng.later.length - rng'.length),
+                      formula := some (ofCNF G, h') }
   | .headerSeed gd _ =>
     if guardFires (seedTy t) gd (argsSeed t st.top.seed) then
       match argsSeed t st.top.seed, st.formula with
@@ -313,34 +731,33 @@ def stepEv (σ : Int → Rng) (w : World) (t : ToolPhases) (argv : List String) 
   | .readInput _ => .error (.unsupported "input")
   | .shuffle => .error (.unsupported "shuffle")
 
-/-- the events up to the first output; result: what is written, and how many answers the graph samplers and the
-formula samplers consumed -/
+/-- the events up to the first output -/
 def runFrom (σ : Int → Rng) (w : World) (t : ToolPhases) (argv : List String) :
-    List Ev → RState → Outcome × Nat × Nat
-  | [], st => (.unsupported "no output event", st.usedGraph, st.usedFormula)
+    List Ev → RState → Result
+  | [], st => ⟨.unsupported "no output event", st.usedGraph, st.usedFormula, st.written⟩
   | e :: es, st =>
-    if isOutput e then (render t st, st.usedGraph, st.usedFormula)
+    if isOutput e then ⟨render t st, st.usedGraph, st.usedFormula, st.written⟩
     else match stepEv σ w t argv st e with
-      | .error o => (o, st.usedGraph, st.usedFormula)
+      | .error o => ⟨o, st.usedGraph, st.usedFormula, st.written⟩
       | .ok st' => runFrom σ w t argv es st'
 
 /-- a run of the tool described by the table `t` -/
-def runTable (σ : Int → Rng) (w : World) (t : ToolPhases) (argv : List String) (rng₀ : Rng) : Outcome × Nat × Nat :=
+def runTable (σ : Int → Rng) (w : World) (t : ToolPhases) (argv : List String) (rng₀ : Rng) : Result :=
   runFrom σ w t argv t.events { rng := rng₀ }
 
 /-- a run of `tool` (cnfgen / pbgen) as the CURRENT source orders it -/
-def toolRun (tool : String) (σ : Int → Rng) (w : World) (argv : List String) (rng₀ : Rng) : Outcome × Nat × Nat :=
+def toolRun (tool : String) (σ : Int → Rng) (w : World) (argv : List String) (rng₀ : Rng) : Result :=
   match phasesOf tool with
   | some t => runTable σ w t argv rng₀
-  | none => (.unsupported "no phase table", 0, 0)
+  | none => ⟨.unsupported "no phase table", 0, 0, []⟩
 
 /-- a run of cnfgen as the CURRENT source orders it -/
-def cliRun (σ : Int → Rng) (w : World) (argv : List String) (rng₀ : Rng) : Outcome × Nat × Nat :=
+def cliRun (σ : Int → Rng) (w : World) (argv : List String) (rng₀ : Rng) : Result :=
   toolRun "cnfgen" σ w argv rng₀
 
 /-- the seed option of a command line of the fragment -/
 def seedOf (argv : List String) : Option Int :=
-  match parseTop (argv.length + 1) argv.tail {} with
+  match parseTop (argv.length + 1) (parseCommandLine argv).1 {} with
   | .ok top => top.seed
   | .error _ => none
 
